@@ -203,7 +203,7 @@ def translate_bond(path):
             raise Unsupported("bond_type test " + ast.dump(c))
         lets.append(f"let bt := if contains {coq_str(c.left.value)} pre then {_bondtype(s.body[0].value)} else bt in")
     out = [
-        f"(* generated by harness/translate.py from bond.py:{fn.lineno}-{fn.end_lineno} and :{second.lineno}-{chain[-1].end_lineno if chain else second.lineno} -- do not edit *)",
+        f"(* generated by harness/translate.py from bond.py (is_compatible, bond order chain of __init__) -- do not edit *)",
         "From Coq Require Import Bool List String ZArith.",
         "From GBS Require Import Model.PyStr Model.Num Model.Bond.",
         "Import ListNotations. Open Scope string_scope. Open Scope bool_scope.",
@@ -272,7 +272,7 @@ def translate_dist(path):
             raise Unsupported(f"{pyname}.__init__ startswith check")
         prefixes.append((fam, sw[0].args[0].value))
     out = [
-        f"(* generated by harness/translate.py from distribution.py:{fn.lineno}-{fn.end_lineno} -- do not edit *)",
+        f"(* generated by harness/translate.py from distribution.py -- do not edit *)",
         "From Coq Require Import Bool List String ZArith.",
         "From GBS Require Import Model.PyStr Model.DistFam.",
         "Import ListNotations. Open Scope string_scope. Open Scope bool_scope.",
@@ -394,7 +394,7 @@ def translate_ff(path):
         lets.append(f"let {v} := {rhs} in")
         env2[t] = v
     out = [
-        f"(* generated by harness/translate.py from forcefield_helper.py:{fn.lineno}-{fn.end_lineno} -- do not edit *)",
+        f"(* generated by harness/translate.py from forcefield_helper.py -- do not edit *)",
         "From Coq Require Import Bool.",
         "From GBS Require Import Model.FF.",
         "Open Scope bool_scope.",
@@ -469,7 +469,7 @@ def translate_stoch(path):
     if not ok:
         raise Unsupported("_validate count check")
     out = [
-        f"(* generated by harness/translate.py from stochastic.py:{fn.lineno}-{fn.end_lineno} -- do not edit *)",
+        f"(* generated by harness/translate.py from stochastic.py -- do not edit *)",
         "From Coq Require Import Bool List Arith.",
         "From GBS Require Import Model.PyStr Model.Num Model.Bond.",
         "Import ListNotations. Open Scope bool_scope.",
